@@ -74,13 +74,25 @@ theorem known_nil (c : Case) (h : known c = []) :
   · rfl
   · simp [he, hk] at h
 
+theorem stepsOk_model (c : Case) (xs : List Nat) : stepsOk c xs (xs.map (stepOf c)) = true := by
+  induction xs with
+  | nil => rfl
+  | cons x xs ih =>
+    have hout : (eval c.oracle (norm c.tree) x).1 =
+        (if sat c.oracle c.tree x then none else some (excOf c.oracle c.tree x)) := by
+      rw [norm_sound, eval_out]; rfl
+    have hret : ∀ out, (isProbe c.tree = true ∨ retNoneOf c.tree out = true) := by
+      intro out; cases c.tree <;> simp [isProbe, retNoneOf]
+    simp [stepsOk, stepOf, hout, hret, ih]
+
 theorem model_meets_spec (c : Case) (hwf : wf c = true) (hk : known c = []) : spec c (model c) = true := by
   unfold spec
   cases hv : validArgs c.buildOracle c.tree
   · simp
   · have hb : buildErr c.buildOracle c.tree = none := (buildErr_none _ _).2 hv
     simp only [wf, Bool.and_eq_true] at hwf
-    obtain ⟨⟨⟨hs1, hs2⟩, _⟩, hcoh⟩ := hwf
+    obtain ⟨⟨⟨⟨hs1, hs2⟩, _⟩, _⟩, hcoh⟩ := hwf
+    have hsteps := stepsOk_model c c.more
     have hout : (eval c.oracle (norm c.tree) 0).1 =
         (if sat c.oracle c.tree 0 then none else some (excOf c.oracle c.tree 0)) := by
       rw [norm_sound, eval_out]; rfl
@@ -91,19 +103,19 @@ theorem model_meets_spec (c : Case) (hwf : wf c = true) (hk : known c = []) : sp
         intro h; rw [(buildErr_none _ _).1 h] at hv2; cases hv2
       cases hb2' : buildErr c.buildOracle c.tree2 with
       | none => exact absurd hb2' hb2
-      | some k => simp [model, hb, hb2', hout, hret]
+      | some k => simp [model, hb, hb2', hout, hret, hsteps]
     · have hb2 : buildErr c.buildOracle c.tree2 = none := (buildErr_none _ _).2 hv2
       cases hsame : sameUpTo c.eqOracle c.tree c.tree2
-      · simp [model, hb, hb2, hout, hret]
+      · simp [model, hb, hb2, hout, hret, hsteps]
       · have hep : equalParams c = true := by simp [equalParams, hv, hv2, hsame]
         have hk9 := known_nil c hk hep
         have hcoh : coherent c.eqOracle c.tree c.tree2 = true := by simpa [hv, hv2] using hcoh
         have heq := veq_norm c.eqOracle c.tree c.tree2 hs1 hs2 hsame hk9 hcoh
         cases hph : (paramsHashable c.eqOracle c.tree && paramsHashable c.eqOracle c.tree2)
-        · simp [model, hb, hb2, hout, hret, heq]
+        · simp [model, hb, hb2, hout, hret, heq, hsteps]
         · simp only [Bool.and_eq_true] at hph
           obtain ⟨a1, a2, a3⟩ := vhash_norm c.eqOracle c.tree c.tree2 hs1 hs2 hsame hk9 hcoh hph.1 hph.2
-          simp [model, hb, hb2, hout, hret, heq, a1, a2, a3]
+          simp [model, hb, hb2, hout, hret, heq, a1, a2, a3, hsteps]
 
 
 end Attrs.C18
